@@ -353,7 +353,9 @@ func toSMTPErr(err error) *smtp.SMTPError {
 		res.Code = ctxCode
 	}
 	ctxEnchCode, ok := ctxInfo["smtp_enchcode"].(exterrors.EnhancedCode)
-	if ok {
+	// Errors relayed from servers that do not use enhanced codes have it
+	// unset, keep the generic one in this case.
+	if ok && smtp.EnhancedCode(ctxEnchCode) != smtp.EnhancedCodeNotSet {
 		res.EnhancedCode = smtp.EnhancedCode(ctxEnchCode)
 	}
 	ctxMsg, ok := ctxInfo["smtp_msg"].(string)
